@@ -34,7 +34,7 @@ VARIABLES phase,    \* "running" | "updating" | "loading" | "archiving"   (life 
           cluster,  \* Seq([alg, t, run])        farm._cluster
           idle,     \* Seq(W)                    farm._workers
           wk,       \* [W -> [st, rev]]  GROUND TRUTH about each connection:
-                    \*    st: "unused" | "idle" (registered, waiting) | "busy" (got a task, disconnected) | "gone"
+                    \*    st: "unused" | "conn" (accepted, not registered) | "idle" (registered, waiting) | "busy" (got a task, disconnected) | "gone"
           fly,      \* set of [alg, t, run, w]   task messages written and not yet answered (live)
           stored,   \* highest run id stored in the database
           archive,  \* farm.ARCHIVE
@@ -59,9 +59,15 @@ Init ==
 (* ---- worker side ------------------------------------------------------- *)
 NextW == IF \E w \in W : wk[w].st = "unused" THEN CHOOSE w \in W : wk[w].st = "unused" /\ \A v \in W : wk[v].st = "unused" => w <= v ELSE 0
 
-Register(rev) ==                       \* Hand._reg
+Connect ==                             \* Foreman.buildProtocol: the connection is accepted, nothing said yet
     LET w == NextW IN
     /\ w # 0
+    /\ wk' = [wk EXCEPT ![w].st = "conn"]
+    /\ wrote' = {} /\ drew' = {}
+    /\ UNCHANGED <<phase, gitrev, pend, exec, rid, cluster, idle, fly, stored, archive, runs, cycles>>
+
+Register(w, rev) ==                    \* Hand._reg: the register message of an accepted connection arrives (any time later)
+    /\ wk[w].st = "conn"
     /\ IF rev = gitrev
        THEN /\ idle' = Append(idle, w)
             /\ wk' = [wk EXCEPT ![w] = [st |-> "idle", rev |-> rev]]
@@ -72,8 +78,8 @@ Register(rev) ==                       \* Hand._reg
     /\ drew' = {}
     /\ UNCHANGED <<phase, gitrev, pend, exec, rid, cluster, fly, stored, archive, runs, cycles>>
 
-Lost(w) ==                             \* Hand.connectionLost of a waiting worker
-    /\ wk[w].st = "idle"
+Lost(w) ==                             \* Hand.connectionLost of a waiting (or not yet registered) worker
+    /\ wk[w].st \in {"idle", "conn"}
     /\ wk' = [wk EXCEPT ![w].st = "gone"]
     /\ idle' = Remove(idle, w)
     /\ wrote' = {} /\ drew' = {}
@@ -207,7 +213,8 @@ Notify ==                               \* farm.notify_all() on its own (any cal
     /\ UNCHANGED <<phase, gitrev, pend, exec, rid, cluster, fly, stored, archive, runs, cycles>>
 
 Next ==
-    \/ \E r \in Revs : Register(r)
+    \/ Connect
+    \/ \E w \in W, r \in Revs : Register(w, r)
     \/ \E w \in W : Lost(w)
     \/ \E r \in Revs : Poll(r)
     \/ \E x \in Alg, T \in SUBSET Targets : Run(x, T)
@@ -226,8 +233,9 @@ TaskWrites == { m \in wrote' : m.kind = "task" }
 (* only to a worker that registered with the CURRENT revision, is connected and waiting, holds no task *)
 Eligible_Step == \A m \in TaskWrites : wk[m.w].st = "idle" /\ wk[m.w].rev = gitrev /\ Active
 OneTaskPerWorker_Step == \A m, n \in TaskWrites : m.w = n.w => m = n
-(* while not active nothing is sent *)
-Silent_Step == ~Active => TaskWrites = {}
+(* while not active nothing is sent: neither in a step that starts inactive nor in one that ends inactive
+   (a dispatch that switches the pipeline to archiving must not send anything afterwards) *)
+Silent_Step == (~Active \/ ~Active') => TaskWrites = {}
 (* a notification round while inactive tells every waiting worker to leave *)
 Leave_Step ==
     (~Active' /\ \E m \in wrote' : m.kind \in {"abort", "wait"} /\ wk[m.w].st = "idle") =>
